@@ -530,6 +530,13 @@ func runC16(tr *Trace, sc *Script, rec *Recorder, scratch string) *Violation {
 						willNotice = true // its header is still to be fetched and will not match the logs
 					}
 				}
+				if willNotice && chain.HeadNum()-d+uint64(op.Arg(2)) < inflightTo {
+					// the fork leaves the chain shorter than the range the downloader holds logs of: it notices the
+					// mismatch and asks for the SAME range again, gets what exists of it, and then moves past the
+					// range's end - the blocks that are mined later inside it are never examined (F9's mechanism)
+					willNotice = false
+					rec.Stats.Inc("forks_below_cursor_that_shorten_the_chain_inside_the_range_held")
+				}
 				if !any && willNotice {
 					rec.Stats.Inc("forks_below_cursor_noticed_by_header_mismatch")
 				}
